@@ -25,7 +25,7 @@ package iprange
 //@   ensures[C14] len(ip) == 16 ==> ok == (le16(r.left, ip) && le16(ip, r.right)) @inclusive-interval-in-byte-order
 //@   ensures[C14] len(ip) == 4 ==> ok == (ge16from4(ip, r.left) && le16from4(ip, r.right)) @four-byte-address-treated-as-its-mapped-form
 //@   ensures[C14] len(ip) != 4 && len(ip) != 16 ==> !ok @not-an-address-is-never-a-member
-//@   ensures ok == inrange(r, ip)
+//@   ensures[C14,C15] ok == inrange(r, ip) @membership-predicate
 
 // ---- C14: parsing ---------------------------------------------------------------------------------
 //
